@@ -13,7 +13,7 @@ RESERVED = re.compile(r'^(data_.*|save_.*|loop_|stop_|global_)$', re.I)
 
 ATOMS = ['a', '1.5(3)', '', 'a b', "it's", 'x"y', "''", ';', 'a;b', '\\', 'a\\', '[a]', '{a}', '#x', '_x', '$x', 'data_x', 'loop_', 'stop_', 'global_', 'save_',
          '\u00e9', '\ud7ff', '\ue000', '\ufffd', '\U0001F600', 'a\nb', 'a\n;b', 'a\\\nb', ' lead', 'trail ', "a'''b", 'a"""b', '?', '.', 'a\n', '\nb', 'a\n\nb', "'", '"',
-         'a' * 2040]
+         'q\\b\nr\\_', 'a' * 2040, 'a' * 2047, 'b\n' + 'a' * 2048 + '\nc']
 SPECIAL = [('unk',), ('na',)]
 
 
@@ -84,7 +84,8 @@ def presentations(t, cif2):
     first = t.split('\n')[0]
     marker_like = re.search(r'\\[ \t]*$', first) is not None
     no_sol_semi = '\n;' not in t
-    if no_sol_semi and (not marker_like or not cif2) and len(t) < 2040:
+    fits = len(first) <= 2047 and all(len(ln) <= 2048 for ln in t.split('\n')[1:])      # the first line shares its line with the opening semicolon
+    if no_sol_semi and (not marker_like or not cif2) and fits:
         # plain text field (in CIF 1.1 mode the protocols are not decoded, so a marker-like first line is just content)
         P.append(('text', '\n;' + t + '\n;'))
     if cif2 and len(t) < 2000:
@@ -305,6 +306,66 @@ def work_names(chunk, cif2):
     return (len(chunk), out)
 
 
+OPT_ATOMS = ['a b', 'ab\ncd', 'x\\', 'a\n;b', 'q\\b\nr\\_', '', '\\']
+
+
+def option_docs():
+    """the line-folding and prefix protocols under every combination of the two parse options that switch them (cif.h:
+    greater than zero - decode regardless of the CIF version, less than zero - never decode, zero - decode in CIF 2.0 mode).
+    Expected values are stated only where the documentation is explicit: both protocols enabled, both disabled, and a field
+    that uses one protocol alone with that protocol enabled."""
+    out = []
+    for cif2 in (True, False):
+        head = '#\\#CIF_2.0\n' if cif2 else '#\\#CIF_1.1\n'
+        for t in OPT_ATOMS:
+            enc = []
+            if '\n;' not in t and not t.startswith(';'):
+                enc += [('fold', fold_encode(t, 0)), ('fold', fold_encode(t, 2))]
+            enc += [('prefix', fold_encode(t, 0, '> ', fold=False)), ('both', fold_encode(t, 3, 'x', fold=True))]
+            for style, text in enc:
+                if style == 'fold' and any(p.startswith(';') for p in text.split('\n')[2:-1]):
+                    continue
+                raw = text[2:-2]
+                for fm in (-1, 0, 1):
+                    for pm in (-1, 0, 1):
+                        f_on = (1 if cif2 else 0) + fm > 0
+                        p_on = (1 if cif2 else 0) + pm > 0
+                        if f_on and p_on:
+                            want = t
+                        elif not f_on and not p_on:
+                            want = raw
+                        elif style == 'fold' and f_on:
+                            want = t
+                        elif style == 'prefix' and p_on:
+                            want = t
+                        else:
+                            continue
+                        out.append((head + 'data_b\n_a' + text + '\n', 'fold=%d prefix=%d' % (fm, pm), {'b': {'loops': [[('_a',), [(('s', want, 1),)]]], 'frames': {}}}))
+    return out
+
+
+def work_options(chunk):
+    ex = worker_exec('fast')
+    out = []
+    ex.run(['reset', 'cif.new C0'])
+    lines = []
+    for text, opts, exp in chunk:
+        lines.append('bytes.set B0 %s' % text.encode('utf-8').hex())
+        lines.append('parse.reuse C0 B0 %s' % opts)
+    ans = ex.run(lines, timeout=60)
+    for k, (text, opts, exp) in enumerate(chunk):
+        a = ans[2 * k + 1]
+        if not isinstance(a, dict):
+            out.append(('driver', 'options ' + opts, text, repr(a)))
+        elif a['rc'] != 0 or a['nerr'] != 0:
+            out.append(('error', 'options ' + opts, text, 'rc %d, error callbacks %r' % (a['rc'], a['errs'][:3])))
+        else:
+            got = canon_dump(a['dump'])
+            if got != canon_exp_values(exp):
+                out.append(('content', 'options ' + opts, text, 'parsed %s\nexpected %s' % (json.dumps(got, default=str)[:700], json.dumps(canon_exp_values(exp), default=str)[:700])))
+    return (len(chunk), out)
+
+
 CORE_ATOMS = ['a', '1.5(3)', '', "it's", 'x"y', ';', 'a\\', '[a]', 'loop_', '\u00e9\U0001F600', 'a\n;b', 'trail ', 'a\n', '?']
 
 
@@ -439,9 +500,20 @@ def main():
                     rep.violation({'dialect': 'CIF2' if cif2 else 'CIF1.1', 'kind': kind, 'structure': struct, 'doc': text[:60] if len(text) < 300 else text[:40] + '...'},
                                   {'dialect': 'CIF2' if cif2 else 'CIF1.1', 'structure': struct, 'document': text[:3000], 'message': msg})
             nontriv += len(Tc) ** 3
+    od = option_docs()
+    summary['options'] = {'documents': len(od)}
+    for res in pmap(work_options, chunked(od, 40)):
+        if isinstance(res, dict):
+            rep.violation({'kind': 'executor'}, res)
+            continue
+        n, out = res
+        total += n
+        nontriv += n
+        for kind, struct, text, msg in out:
+            rep.violation({'kind': kind, 'structure': struct, 'doc': text[:60]}, {'structure': struct, 'document': text[:3000], 'message': msg})
     return rep.finish({'evaluations': total, 'distinct_nontrivial': nontriv,
                        'rule': 'every document with 2 value tokens: ordered pairs over all (atom, presentation) tokens (%d atoms; presentations bare, single/double quoted, triple quoted, text field, folded text field with cuts, prefixed, prefixed+folded as admissible) '
-                               'in structures %s (CIF 1.1: %s), separators %r (full cross product for scalar pairs and loops), with and without the version comment; thorough: also every ordered TRIPLE over the reduced token set (all presentations of 14 core atoms) in a loop row, a loop column and a list; content known by construction from the generator; plus the names family: block code, frame code, data name, looped name and table key carrying each of %d name characters (delimiters that are ordinary inside a name, first / last code point of every permitted range, characters that grow under normalisation) at the start, in the middle, at the end and doubled. '
+                               'in structures %s (CIF 1.1: %s), separators %r (full cross product for scalar pairs and loops), with and without the version comment; thorough: also every ordered TRIPLE over the reduced token set (all presentations of 14 core atoms) in a loop row, a loop column and a list; content known by construction from the generator; plus the names family: block code, frame code, data name, looped name and table key carrying each of %d name characters (delimiters that are ordinary inside a name, first / last code point of every permitted range, characters that grow under normalisation) at the start, in the middle, at the end and doubled. Options family: folded / prefixed / folded+prefixed text fields under all 9 combinations of line_folding_modifier and text_prefixing_modifier in both dialects, where cif.h states the outcome. '
                                'non-trivial = distinct ordered token pairs' % (len(ATOMS), STRUCTS2, STRUCTS1, SEPS, len(NAME_CHARS2)),
                        'samples': ["#\\#CIF_2.0\ndata_b _a 'it''s'...", 'loop_ _a <text field> <triple quoted>'], 'dialects': summary, 'exhaustive': True},
                       ['the generator (mc/c01.py: presentations(), fold_encode(), build_doc()) is the independent statement of the grammar',
